@@ -8,6 +8,7 @@ package main
 
 import (
 	"fmt"
+	"net"
 	"sort"
 
 	"github.com/insomniacslk/dhcp/dhcpv4"
@@ -26,10 +27,78 @@ func vOptsList(o dhcpv4.Options) string {
 	return vList(items)
 }
 
+// runCodecMsg: whole messages through ToBytes (CMEnc) and raw datagrams through FromBytes (CMDec)
+func runCodecMsg(c *Ctx) {
+	r := c.R
+	n := c.Scale(120, 3000)
+	for i := 0; i < n; i++ {
+		s := randReq4(c)
+		s.op = byte([]int{1, 2, 1, 2, 0, 7}[r.Intn(6)])
+		raw := buildReq4(s)
+		m, err := dhcpv4.FromBytes(raw)
+		if err != nil {
+			continue
+		}
+		// fields the request builder leaves alone
+		m.HopCount = byte(r.Intn(256))
+		m.NumSeconds = uint16(r.U64())
+		if r.Pct(40) {
+			m.ServerHostName = []string{"", "srv", "boot.example", string(r.Bytes(1 + r.Intn(62)))}[r.Intn(4)]
+		}
+		if r.Pct(40) {
+			m.BootFileName = []string{"", "pxelinux.0", "a/b/c.efi", string(r.Bytes(1 + r.Intn(126)))}[r.Intn(4)]
+		}
+		if r.Pct(30) {
+			m.YourIPAddr = net.IP{10, 1, 2, byte(r.Intn(256))}
+		}
+		if r.Pct(20) {
+			m.ServerIPAddr = net.ParseIP("10.0.0.1") // 16-byte form of an IPv4 address
+		}
+		if r.Pct(10) {
+			m.Options[uint8(224+r.Intn(20))] = r.Bytes([]int{0, 3, 255, 256, 300}[r.Intn(5)])
+		}
+		if hasNul(m.ServerHostName) || hasNul(m.BootFileName) {
+			continue // strings with a NUL are cut by the decoder: outside the round-trip statement
+		}
+		wire := m.ToBytes()
+		c.AddCase(fmt.Sprintf("CMEnc %s %s", vMsg4(m), vBytes(wire)))
+		c.Count("codec:msg-enc")
+		in := append([]byte{}, wire...)
+		switch r.Intn(5) {
+		case 0:
+			in = in[:r.Intn(len(in))]
+		case 1:
+			in[r.Intn(len(in))] ^= byte(1 << uint(r.Intn(8)))
+		case 2:
+			in[2] = byte(r.Intn(256)) // hlen
+		}
+		back, err := dhcpv4.FromBytes(in)
+		res := "None"
+		if err == nil {
+			res = "(Some " + vMsg4(back) + ")"
+		}
+		if len(in) < 2000 {
+			c.AddCase(fmt.Sprintf("CMDec %s %s", vBytes(in), res))
+			c.Count("codec:msg-dec")
+		}
+		c.Eval(fmt.Sprintf("codecmsg/%x", in), err == nil)
+	}
+}
+
+func hasNul(s string) bool {
+	for i := 0; i < len(s); i++ {
+		if s[i] == 0 {
+			return true
+		}
+	}
+	return false
+}
+
 func runCodec(c *Ctx) {
 	r := c.R
-	c.SetCases("From Verif Require Import Base Msg4 Opt4Codec Opt4Run.", "Opt4Run.mismatches")
+	c.SetCases("From Verif Require Import Base Msg4 Opt4Codec Msg4Codec Opt4Run.", "Opt4Run.mismatches")
 	c.shard = 60
+	runCodecMsg(c)
 	lens := []int{0, 0, 1, 1, 2, 4, 4, 16, 254, 255, 256, 257, 509, 510, 511, 600, 800}
 	hdr, _ := dhcpv4.New()
 	hdr.Options = dhcpv4.Options{}
